@@ -19,6 +19,7 @@ namespace vf {
 std::vector<Case> &registry() { static std::vector<Case> r; return r; }
 volatile long g_alloc_count = 0;
 volatile int g_alloc_armed = 0;
+volatile long g_thunk_alloc_events = 0;
 }
 using namespace vf;
 
@@ -171,6 +172,7 @@ static void run_body(const Case &c, Draw &d, Ctx &ctx) {
   catch (const std::exception &e) { g_alloc_armed = 0; ctx.fail("exception: %s", e.what()); }
   catch (...) { g_alloc_armed = 0; ctx.fail("unknown exception"); }
   g_alloc_armed = 0;
+  if (g_thunk_alloc_events) { ctx.fail("a library call inside this case's thunk allocated dynamic memory (%ld malloc/new calls)", (long)g_thunk_alloc_events); g_thunk_alloc_events = 0; }
   g_cur_draw = nullptr;
 }
 
